@@ -153,6 +153,9 @@ func replayDir() string {
 	if d := os.Getenv("VERIF_REPLAY_DIR"); d != "" {
 		return d
 	}
+	if r := os.Getenv("VERIF_ROOT"); r != "" {
+		return r + "/replays/_tmp"
+	}
 	return "/verif/replays/_tmp"
 }
 
